@@ -31,7 +31,7 @@ def _case(draw):
     srcs = []
     for i in range(n_src):
         sig = draw(st.sampled_from([[4, 4], [3, 4], [6, 8], [2, 4]]))
-        notes = draw(gens.wellformed_notes(channels=(0, 1), pitches=draw(st.sampled_from([(60, 61, 64), (60, 61, 64), (21, 108), (22, 107, 60)])), max_notes=6, max_len=60, max_gap=40))
+        notes = draw(gens.wellformed_notes(channels=(0, 1), pitches=draw(gens.pitch_pool([(60, 61, 64)])), max_notes=6, max_len=60, max_gap=40))
         meta = []
         if route != "bar_copy" and i == 0 and draw(st.booleans()):
             meta.append(["ts", 0, sig[0], sig[1]])
@@ -41,6 +41,8 @@ def _case(draw):
         spec.update(draw(gens.route()))
         end = max([n[3] for n in notes] + [0])
         spec["pad"] = draw(st.one_of(st.none(), st.just(end + draw(st.integers(0, 40)))))
+        if i > 0 and draw(st.integers(0, 3)) == 0:
+            spec = {"notes": [], "meta": [], "route": "abs_sorted", "pad": None, "post": None}     # a message-less track
         srcs.append(spec)
     return {"route": route, "srcs": srcs, "caps": draw(st.lists(st.integers(1, 80), min_size=1, max_size=3)),
             "requant": draw(st.booleans()), "key": draw(st.one_of(st.none(), st.sampled_from(gens.KEYS))),
